@@ -41,7 +41,7 @@ func checkC15(p *Prog, r *Report) {
 	}
 	r.Rule("R1", "the handler list is accessed only under the bus lock")
 	for _, v := range guardTable(ls) {
-		if v.Key == "events.handlers" {
+		if v.Key == F("events.handlers") {
 			r.Check("R1", "field:events.handlers", v.Guard != "" && len(v.Deviants) == 0 && v.NAcc >= 5, "", fmt.Sprintf("guard %s, %d accesses, %d deviating", v.Guard, v.NAcc, len(v.Deviants)))
 			for _, a := range v.Deviants {
 				r.Fail("R1", fmt.Sprintf("field:events.handlers|fn:%s|%s", FnName(a.Fn), a.Kind), p.InstrPos(a.Ins), "access without the bus lock")
@@ -53,7 +53,7 @@ func checkC15(p *Prog, r *Report) {
 	r.Rule("R4", "Publish iterates a snapshot of the handler list copied under the bus lock")
 	guardLock := ""
 	for _, v := range guardTable(ls) {
-		if v.Key == "events.handlers" {
+		if v.Key == F("events.handlers") {
 			guardLock = v.Guard
 		}
 	}
@@ -159,7 +159,7 @@ func checkC15(p *Prog, r *Report) {
 	// the snapshot copy happens under the lock
 	okCopy := false
 	forEachCall(publish, func(site ssa.CallInstruction) {
-		if builtinName(site.Common()) == "copy" && strings.HasSuffix(Path(site.Common().Args[1]), ".handlers") {
+		if builtinName(site.Common()) == "copy" && strings.HasSuffix(Path(site.Common().Args[1]), "."+FN("events.handlers")) {
 			for lp := range ls.At(site.(ssa.Instruction)) {
 				if lastComp(lp) == guardLock {
 					okCopy = true
@@ -204,8 +204,8 @@ func checkC15(p *Prog, r *Report) {
 	r.Floor("R5", "core-level subscriptions", nCoreSubs, 1)
 
 	r.Rule("R6", "unsubscribe keeps a handler ⇔ ¬(level ∧ handler equal); subscribe appends only after a miss of the same pair inside one critical section")
-	applyRetain(p, r, "R6", "spine", "events", "unsubscribe", retainSpec{Field: "events.handlers", Required: map[string]string{"level": "=Level", "handler": "=Handler"}})
-	absenceThenInsert(p, ls, r, "R6", "events.handlers", true, 1)
+	applyRetain(p, r, "R6", "spine", "events", "unsubscribe", retainSpec{Field: F("events.handlers"), Required: map[string]string{"level": "=Level", "handler": "=Handler"}})
+	absenceThenInsert(p, ls, r, "R6", F("events.handlers"), true, 1)
 	c15ScanContent(p, ls, r)
 	r.Assumes("application handlers are external code; core handlers are the in-repository implementations of EventHandlerInterface")
 }
@@ -247,7 +247,7 @@ func syncPathTo(p *Prog, a, b *ssa.Function) []string {
 
 // c15ScanContent: subscribe's deciding conditions compare Level and Handler.
 func c15ScanContent(p *Prog, ls *Lockset, r *Report) {
-	ff := ls.Facts("events.handlers")
+	ff := ls.Facts(F("events.handlers"))
 	for _, a := range ff.insAcc {
 		fn := a.Fn
 		fields := map[string]bool{}
